@@ -301,6 +301,17 @@ def gen_nest(seed, feats=None):
                  [["evexc", g.id()], ["pad", b], ["chk", g.site()]], [["ev", g.id()]]]]
         g.funcs.append({"how": "fn", "body": body, "mod": None})
         main = [["try", [["call", fi, g.id()], ["chk", g.site()], ["throw", g.id(), "s"]], [["evexc", g.id()]], None]] + main
+    if rng.chance(1.0 / 40):
+        # a `return` taken while the try block has live variables of its own, through a finally block that declares and uses
+        # variables of its own (the two sets of stack slots must not overlap)
+        fi = len(g.funcs)
+        inner = [["chk", g.site()], ["ret", g.id()]]
+        if rng.chance(0.4):
+            inner = [["loop", "for", 2, inner, None]]
+        body = [["try", [["local", g.id(), [["local", g.id(), inner]] if rng.chance(0.5) else inner]], None,
+                 [["local", g.id(), [["local", g.id(), [["ev", g.id()]]], ["ev", g.id()]]]]], ["ev", g.id()]]
+        g.funcs.append({"how": rng.choice(["fn", "fn", "method", "fiber"]), "body": body, "mod": None})
+        main = [["try", [["call", fi, g.id()], ["ev", g.id()]], [["evexc", g.id()]], None]] + main
     edge = False
     if rng.chance(1.0 / 100):
         # the very edge: a try block whose distance to its catch / finally block is the largest the 16-bit handler operands
